@@ -290,3 +290,60 @@ Definition spec_order (op : Z) (l : lop) (r : rop) : Z * list Z :=
     | RFun => match l with LPrim => (0, []) | _ => (1, []) end
     | RFunBadProto => match l with LPrim => (0, []) | _ => (6, []) end
     end.
+
+(* ------------------------------------------------------------------ *)
+(* which error wins: ES5 evaluation order, by scenario id *)
+Definition spec_eval (id : Z) : option (Z * Z * list Z) :=
+  match id with
+  | 1 => Some (4, 2, [])   (* new NF(zz): 11.2.2 step 3: the arguments are evaluated before the type check of steps 4-5 *)
+  | 2 => Some (4, 2, [1])   (* new NF(se(1), zz): 11.2.4: arguments left to right *)
+  | 3 => Some (6, 1, [1; 2])   (* new NF(se(1), se(2)): 11.2.2 steps 4-5 after the arguments *)
+  | 4 => Some (4, 1, [])   (* new zz1(se(1)): 11.2.2 step 2: GetValue(ref) (8.7.1 ReferenceError) before the arguments *)
+  | 5 => Some (6, 2, [])   (* new NF(U.x): 11.2.1 step 5 inside the argument *)
+  | 6 => Some (4, 2, [])   (* NF(zz): 11.2.3 step 3 before steps 4-5 *)
+  | 7 => Some (6, 1, [1; 2])   (* NF(se(1), se(2)): 11.2.3 step 5 *)
+  | 8 => Some (4, 1, [])   (* zz1(se(1)): 11.2.3 step 2: GetValue(ref) before the arguments *)
+  | 9 => Some (4, 2, [1])   (* O.nf(se(1), zz): 11.2.4 *)
+  | 10 => Some (6, 1, [1])   (* O.nf(se(1)): 11.2.3 step 5 *)
+  | 11 => Some (6, 1, [])   (* U.m(se(1)): 11.2.1 step 5 while evaluating the callee *)
+  | 12 => Some (6, 1, [1; 2])   (* O[se(1)](se(2)): 11.2.1 then 11.2.3 step 5 *)
+  | 13 => Some (4, 1, [])   (* zz1 in zz2: 11.8.7 step 2: GetValue(lref) first *)
+  | 14 => Some (4, 1, [1])   (* se(1) in zz2: 11.8.7 step 4 *)
+  | 15 => Some (4, 1, [])   (* zz1 instanceof zz2: 11.8.6 step 2 *)
+  | 16 => Some (6, 0, [1])   (* se(1) instanceof NF: 11.8.6 step 5 (no position of its own) *)
+  | 17 => Some (4, 1, [])   (* delete zz1[se(1)]: 11.2.1 step 2 before step 3 *)
+  | 18 => Some (6, 1, [1])   (* delete U[se(1)]: 11.2.1 steps 3-4 before step 5 *)
+  | 19 => Some (4, 2, [])   (* U[zz]: 11.2.1 step 4 before step 5 *)
+  | 20 => Some (6, 1, [1])   (* U[se(1)]: 11.2.1 step 5 *)
+  | 21 => Some (4, 1, [])   (* zz1 += se(1): 11.13.2 step 2: GetValue(lref) before the right side *)
+  | 22 => Some (6, 1, [])   (* U.x += se(1): 11.13.2 step 1 / 11.2.1 step 5 *)
+  | 23 => Some (6, 1, [])   (* U.x = se(1): 11.13.1 step 1 / 11.2.1 step 5 before step 2 *)
+  | 24 => Some (4, 1, [])   (* zz1.x = se(1): 11.13.1 step 1 / 11.2.1 step 2 *)
+  | 25 => Some (6, 1, [])   (* O.k.z.w = se(1): 11.2.1 step 5 *)
+  | 26 => Some (6, 1, [1])   (* U[se(1)] = se(2): 11.13.1 step 1: the subscript, then 11.2.1 step 5; the right side is not reached *)
+  | 27 => Some (6, 2, [])   (* NF(U.x, se(1)): 11.2.4 *)
+  | 28 => Some (4, 1, [1])   (* se(1) + zz1 + se(2): 11.6.1 *)
+  | 29 => Some (4, 1, [1])   (* [se(1), zz1, se(2)]: 11.1.4 *)
+  | 30 => Some (4, 1, [1])   (* ({a: se(1), b: zz1, c: se(2)}): 11.1.5 *)
+  | 31 => Some (6, 1, [])   (* U[TS]: 11.2.1 step 5 CheckObjectCoercible before step 6 ToString(propertyNameValue) *)
+  | 32 => Some (6, 1, [])   (* U[TS] = se(1): 11.2.1 step 5 before step 6 *)
+  | 33 => Some (6, 1, [])   (* delete U[TS]: 11.2.1 step 5 before step 6 *)
+  | 34 => Some (6, 1, [9])   (* NF[TS](): 11.2.1 step 6, then 11.2.3 step 5 *)
+  | 35 => Some (6, 0, [1])   (* se(1) in NF: 11.8.7 step 5 (no position of its own) *)
+  | 36 => Some (6, 1, [])   (* O.nf.x.y(se(1)): 11.2.1 step 5 *)
+  | 37 => Some (4, 2, [1])   (* new O.nf(se(1), zz): 11.2.2 step 3 *)
+  | 38 => Some (4, 1, [])   (* zz1[se(1)]: 11.2.1 step 2 *)
+  | 39 => Some (4, 1, [])   (* zz1(zz2): 11.2.3 step 2 *)
+  | 40 => Some (4, 2, [])   (* zz1 = zz2: 11.13.1 step 3: only the right side is read *)
+  | 41 => Some (6, 1, [1])   (* O.k.z[se(1)] = se(2): 11.2.1 steps 3-5 *)
+  | 42 => Some (4, 1, [])   (* zz1 -= zz2: 11.13.2 step 2 *)
+  | 43 => Some (4, 1, [1])   (* O[se(1)] += zz2: 11.13.2 step 4 *)
+  | 44 => Some (6, 1, [])   (* U[TT]: 11.2.1 step 5 before step 6: the TypeError, not the exception of toString *)
+  | 45 => Some (4, 1, [])   (* new zz1(zz2): 11.2.2 step 2 before step 3 *)
+  | 46 => Some (90, 0, [1; 9])   (* NF(se(1), TT + 1): 11.2.4: the exception of the argument *)
+  | 47 => Some (6, 1, [])   (* new U.C(se(1)): 11.2.1 step 5 while evaluating the constructor expression *)
+  | 48 => Some (4, 1, [])   (* zz1.m(se(1)): 11.2.1 step 2 *)
+  | 49 => Some (4, 1, [1])   (* se(1), zz1, se(2): 11.14 *)
+  | 50 => Some (90, 0, [1; 9])   (* new NF(se(1), TT + 1): 11.2.2 step 3 *)
+  | _ => None
+  end.
